@@ -20,8 +20,14 @@
     index     the zset `…:index:{tag}`: (score, member) with member = the journal key of kseq
     latest    the hash `…:latest:{tag}` (sync mode)
 
-  `bisyncStartPoint` is modelled as REPAIRED (DESIGN.md D12): the rebuilt
-  frontier is saved before the journal records it was rebuilt from are deleted.
+  `bisyncStartPoint` is modelled as REPAIRED:
+    D12  the rebuilt frontier is saved before the journal records it was rebuilt
+         from are deleted;
+    D25  a start that falls back to the root checkpoint (root newer than the
+         frontier, no frontier, journal gap) restarts the unit numbering at 1 and
+         first deletes journal and frontier snapshot of the previous numbering;
+    D26  a journal gap behind an absent / seq-0 snapshot is such a fall-back, not
+         an error.
 -/
 import GunYu.Basic.Bytes
 
@@ -109,6 +115,7 @@ inductive Req
   | saveFrontier (s : Snap)                 -- HSET <cp>:frontier …
   | delRec (kseq : Int)                     -- DEL …:commit:{tag}:<kseq>
   | zrem (kseqs : List Int)                 -- ZREM …:index:{tag} member…
+  | delFrontier                             -- DEL <cp>:frontier
   | commit (r : Rec)                        -- the unit's MULTI/EXEC: HSET commit key + ZADD index
   | commitLatest (r : Rec)                  -- sync mode: HSET latest key
   deriving DecidableEq, Repr
@@ -117,6 +124,7 @@ def applyReq (ns : NS) : Req → NS
   | .saveFrontier s => { ns with frontier := some s }
   | .delRec k => { ns with journal := ns.journal.filter (fun j => j.kseq ≠ k) }
   | .zrem ks => { ns with index := ns.index.filter (fun p => ¬ ks.contains p.2) }
+  | .delFrontier => { ns with frontier := none }
   | .commit r =>
     { ns with journal := ns.journal.filter (fun j => j.kseq ≠ r.seq) ++ [⟨r.seq, r⟩],
               index := ns.index.filter (fun p => p.2 ≠ r.seq) ++ [(r.seq, r.seq)] }
@@ -154,7 +162,6 @@ def loadRecords (ns : NS) (ids : List Bytes) (minSeq : Int) : List JRec :=
 
 /-- result of `bisyncStartPoint` (+ what `StartPoint` stores into bisyncSeq) -/
 inductive Start
-  | gap (min : Int)                              -- error: journal gap
   | empty                                        -- no root checkpoint: initial sync
   | point (db : Nat) (runId : Bytes) (offset : Int) (seq : Int)
   deriving DecidableEq, Repr
@@ -188,6 +195,18 @@ def recoveryReqs (records : List JRec) (f : Snap) : List Req :=
 
 def rootPoint (root : Bytes × Int × Nat) : Start := .point root.2.2 root.1 root.2.1 0
 
+/-- `purgeBisyncRecoveryState`: every journal record reachable through the index (first
+    occurrence of each key), then the index members, the frontier snapshot last -/
+def purgeReqs (ns : NS) (ids : List Bytes) : List Req :=
+  let keys := ((loadRecords ns ids (-(2^63 : Int))).map (·.kseq)).eraseDups
+  keys.map Req.delRec ++ (if keys.isEmpty then [] else [Req.zrem keys]) ++ [Req.delFrontier]
+
+/-- a start that returns the root checkpoint: the numbering restarts, what the previous
+    numbering left (if the start saw anything of it) is purged first -/
+def restartFromRoot (ns : NS) (ids : List Bytes) (root : Bytes × Int × Nat) : Start × List Req :=
+  (rootPoint root,
+   if (loadSnapshot ns ids).isSome ∨ ¬ (startRecords ns ids).isEmpty then purgeReqs ns ids else [])
+
 /-- `bisyncStartPoint` in pipeline / parallel mode on a fresh process:
     the result and the write requests it issues. -/
 def startFrontier (ver : Bytes) (ns : NS) (ids : List Bytes) : Start × List Req :=
@@ -195,14 +214,14 @@ def startFrontier (ver : Bytes) (ns : NS) (ids : List Bytes) : Start × List Req
   | none => (.empty, [])
   | some root =>
     match rebuild ver (loadSnapshot ns ids) ((startRecords ns ids).map (·.r)) with
-    | .error m => (.gap m, [])
+    | .error _ => restartFromRoot ns ids root
     | .ok (some f) =>
       if f.seq > 0 then
-        if rootNewer root f.offset ids then (rootPoint root, [])
+        if rootNewer root f.offset ids then restartFromRoot ns ids root
         else (.point 0 (if f.runId = [] then ids.headD [] else f.runId) f.offset f.seq,
               recoveryReqs (startRecords ns ids) f)
-      else (rootPoint root, [])
-    | .ok none => (rootPoint root, [])
+      else restartFromRoot ns ids root
+    | .ok none => restartFromRoot ns ids root
 
 /-- `bisyncStartPoint` in sync mode -/
 def startLatest (ns : NS) (ids : List Bytes) : Start :=
@@ -216,6 +235,18 @@ def startLatest (ns : NS) (ids : List Bytes) : Start :=
         if rootNewer root r.endOff ids then .point root.2.2 root.1 root.2.1 0
         else .point 0 r.runId r.endOff r.seq
       else .point root.2.2 root.1 root.2.1 0
+
+/-- `LoadBisyncLatestStartRecord` over several recovery slots (cluster: one latest record per
+    slot): records of foreign run ids are skipped, the best is the one with the largest end
+    offset, ties broken by the larger mtime, otherwise the earlier slot. Returns (best, count). -/
+def bestLatest (recs : List Rec) (ids : List Bytes) : Option Rec × Nat :=
+  recs.foldl (fun (acc : Option Rec × Nat) r =>
+    if matchRun r.runId ids then
+      (match acc.1 with
+        | none => some r
+        | some b => if r.endOff > b.endOff ∨ (r.endOff = b.endOff ∧ r.mtime > b.mtime) then some r else some b,
+       acc.2 + 1)
+    else acc) (none, 0)
 
 /-! ### bisyncFrontierCoordinator -/
 
